@@ -140,21 +140,19 @@ Section WithSig.
   (* ---------------------------------------------------------------- attribute access *)
 
   Definition getattr (args : store) (n : N) : ref + exn :=
-    let param := find_param sg n in
-    match param with
-    | Some p =>
-        match pk p with
-        | PosOnly | VarPos => inr EAttribute
-        | _ =>
-            match sget args (KName n) with
-            | Some v => inl v
-            | None =>
+    match sget args (KName n) with
+    | Some v => inl v                 (* includes a **kwargs entry named like a positional-only parameter *)
+    | None =>
+        match find_param sg n with
+        | Some p =>
+            match pk p with
+            | PosOnly | VarPos => inr EAttribute
+            | _ =>
                 if pfactory p then inr EValue else
                 match pdefault p with Some d => inl d | None => inr EAttribute end
             end
+        | None => inr EAttribute
         end
-    | None =>
-        match sget args (KName n) with Some v => inl v | None => inr EAttribute end
     end.
 
   (* SignatureInfo.validate_param_name *)
